@@ -12,7 +12,10 @@ pub fn gen_cfg() -> GenCfg {
     GenCfg { max_modules: 2, max_types: 5, max_values: 3, max_comps: 4, max_depth: 2, ..GenCfg::default() }
 }
 
-const COMMENT_BODIES: [&str; 8] = [
+const COMMENT_BODIES: [&str; 10] = [
+    // the two texts the rasn backend writes above the types it hoists, as a user's comment
+    "Anonymous SEQUENCE OF member",
+    "Inner type",
     "c",
     "a \"quoted\" word",
     "braces { } ( ) [ ]",
@@ -156,6 +159,22 @@ pub struct Replay {
     pub form_class: String,
 }
 
+/// `text` without its `identifier = ".."` annotations
+fn strip_identifier(text: &str) -> String {
+    let mut out = String::new();
+    let mut rest = text;
+    while let Some(at) = rest.find("identifier = \"") {
+        out.push_str(&rest[..at]);
+        let tail = &rest[at + 14..];
+        rest = tail.find('"').map_or("", |e| &tail[e + 1..]);
+    }
+    out.push_str(rest);
+    out
+}
+
+/// the texts the rasn backend puts above hoisted types; it recognises a hoisted type by them
+const MARKER_BODIES: [&str; 2] = ["Anonymous SEQUENCE OF member", "Inner type"];
+
 fn compare(base: &Result<(Vec<(String, Vec<String>)>, Vec<String>), String>, var: &Result<(Vec<(String, Vec<String>)>, Vec<String>), String>) -> Option<(&'static str, String)> {
     match (base, var) {
         (Ok(_), Err(e)) => Some(("err", format!("compiles in the base layout, {e} after re-layout"))),
@@ -163,6 +182,9 @@ fn compare(base: &Result<(Vec<(String, Vec<String>)>, Vec<String>), String>, var
         (Err(_), Err(_)) => None,
         (Ok((bm, bw)), Ok((vm, vw))) => {
             if bm != vm {
+                // do the bindings differ in nothing but `identifier = ".."` annotations?
+                let strip = |m: &Vec<(String, Vec<String>)>| -> Vec<(String, Vec<String>)> { m.iter().map(|(n, items)| (n.clone(), items.iter().map(|i| strip_identifier(i)).collect())).collect() };
+                let ident_only = strip(bm) == strip(vm);
                 let d = bm
                     .iter()
                     .zip(vm.iter())
@@ -170,10 +192,96 @@ fn compare(base: &Result<(Vec<(String, Vec<String>)>, Vec<String>), String>, var
                     .find(|(x, y)| x != y)
                     .map(|(x, y)| format!("\n  base   : {}\n  variant: {}", x.chars().take(220).collect::<String>(), y.chars().take(220).collect::<String>()))
                     .unwrap_or_else(|| "item count differs".into());
-                return Some(("bindings", format!("bindings differ: {d}")));
+                return Some((if ident_only { "identifier-only" } else { "bindings" }, format!("bindings differ: {d}")));
             }
             if bw != vw {
                 return Some(("warnings", format!("warnings differ: {bw:?} vs {vw:?}")));
+            }
+            None
+        }
+    }
+}
+
+
+/// notation the model generator does not write (parameter lists, choice values, classes and
+/// their syntax, table constraints, inner type constraints, version brackets, ...): each entry
+/// is a group of assignments whose blanks are exactly the boundaries between lexical items
+const LIBRARY: [&[&str]; 24] = [
+    &["Zp { Ta , Ub } ::= SEQUENCE { a Ta , b Ub OPTIONAL }", "Zpi ::= Zp { INTEGER , BOOLEAN }"],
+    &["Zv { INTEGER : lo , INTEGER : hi } ::= INTEGER ( lo .. hi )", "Zvi ::= Zv { 1 , 2 }"],
+    &["Zc ::= CHOICE { a INTEGER , b NULL }", "zcv Zc ::= a : 5", "zcw Zc ::= b : NULL"],
+    &["Zn ::= INTEGER { one ( 1 ) , two ( 2 ) }", "znv Zn ::= two"],
+    &["Zb ::= BIT STRING { first ( 0 ) , third ( 2 ) }", "zbv Zb ::= { first , third }"],
+    &["Ze ::= ENUMERATED { red ( 0 ) , green ( 1 ) , ... , blue ( 5 ) }"],
+    &["Zt ::= [ APPLICATION 5 ] IMPLICIT SEQUENCE { a [ 0 ] EXPLICIT INTEGER , b [ PRIVATE 1 ] BOOLEAN }"],
+    &["Zr ::= INTEGER ( MIN .. 5 | 7 .. MAX )"],
+    &["Zs ::= IA5String ( SIZE ( 1 .. 5 ) ^ FROM ( \"a\" .. \"z\" ) )"],
+    &["Zs2 ::= SEQUENCE ( SIZE ( 1 .. 5 , ... ) ) OF INTEGER ( 0 .. 9 )"],
+    &["Zx ::= INTEGER ( 1 .. 5 , ... , 7 .. 9 )"],
+    &["Zw ::= SEQUENCE { a INTEGER OPTIONAL , b BOOLEAN OPTIONAL }", "Zw2 ::= Zw ( WITH COMPONENTS { ... , a PRESENT , b ABSENT } )"],
+    &["Zo ::= SEQUENCE OF INTEGER", "Zo2 ::= Zo ( WITH COMPONENT ( 1 .. 5 ) )"],
+    &["Zg ::= SEQUENCE { a INTEGER , ... , [[ 2 : b INTEGER , c BOOLEAN OPTIONAL ]] , d NULL OPTIONAL }"],
+    &["Zd ::= SEQUENCE { a INTEGER DEFAULT 5 , b BOOLEAN DEFAULT TRUE , c IA5String DEFAULT \"x\" }"],
+    &["Zk ::= SEQUENCE { a INTEGER }", "Zk2 ::= SEQUENCE { COMPONENTS OF Zk , z BOOLEAN }"],
+    &["zoid OBJECT IDENTIFIER ::= { iso standard 8571 }", "zoid2 OBJECT IDENTIFIER ::= { iso ( 1 ) member-body ( 2 ) 5 }", "zoid3 OBJECT IDENTIFIER ::= { zoid 5 }"],
+    &[
+        "ZCLS ::= CLASS { &id INTEGER UNIQUE , &Type OPTIONAL } WITH SYNTAX { ID &id [ TYPE &Type ] }",
+        "zobj ZCLS ::= { ID 1 TYPE INTEGER }",
+        "Zset ZCLS ::= { zobj | { ID 2 TYPE BOOLEAN } , ... }",
+        "Zh ::= SEQUENCE { id ZCLS.&id ( { Zset } ) , val ZCLS.&Type ( { Zset } { @id } ) }",
+    ],
+    &["Zoc ::= OCTET STRING ( CONTAINING INTEGER )", "Zoc2 ::= OCTET STRING ( SIZE ( 4 ) )"],
+    &["Zsel ::= CHOICE { a INTEGER , b BOOLEAN }", "Zsel2 ::= a < Zsel"],
+    &["Zq ::= SEQUENCE { a INTEGER , b BOOLEAN }", "zqv Zq ::= { a 1 , b TRUE }", "zsov SEQUENCE OF INTEGER ::= { 1 , 2 , 3 }"],
+    &["zbs BIT STRING ::= '0101'B", "zos OCTET STRING ::= 'AF'H", "zneg INTEGER ::= -5", "Zpat ::= IA5String ( PATTERN \"a*\" )"],
+    &["Zu ::= SET { a [ 1 ] INTEGER , b [ 2 ] SET OF BOOLEAN , ... }", "Zany ::= SEQUENCE { a INTEGER , b ANY DEFINED BY a }"],
+    &["Zall ::= INTEGER ( ALL EXCEPT 5 )", "Zinc ::= INTEGER ( INCLUDES Zall )", "Zopt ::= SEQUENCE { a SEQUENCE { b INTEGER } OPTIONAL , c CHOICE { d NULL , e BOOLEAN } , f ENUMERATED { g , h } }"],
+];
+
+/// append two or three library groups to the first module
+fn add_library(ms: &mut ModuleSet, src: &mut crate::src::Src) {
+    let k = 2 + src.pick(2);
+    let mut used = std::collections::BTreeSet::new();
+    for _ in 0..k {
+        let g = src.pick(LIBRARY.len());
+        if !used.insert(g) {
+            continue;
+        }
+        for a in LIBRARY[g] {
+            let toks: Vec<String> = a.split_whitespace().map(|t| t.to_string()).collect();
+            ms.modules[0].items.push(Item::Raw { name: toks[0].clone(), toks, kind: format!("library-{g}") });
+        }
+    }
+}
+
+/// the TypeScript backend on the same text: what a TypeScript compiler sees of the output (its
+/// own comments removed) and the warnings
+fn observe_ts(text: &str) -> Result<(Vec<crate::tsparse::Tok>, Vec<String>), String> {
+    match comp::compile_ts(&[text.to_string()]) {
+        Outcome::Ok(c) => {
+            let toks = crate::tsparse::lex(&c.generated).map_err(|e| format!("unreadable: {e}"))?;
+            let mut w = c.warnings.clone();
+            w.sort();
+            Ok((toks, w))
+        }
+        Outcome::Err(e) => Err(format!("Err:{}", e.chars().take(10).collect::<String>())),
+        Outcome::Panic(p) => Err(format!("panic:{p}")),
+    }
+}
+
+fn compare_ts(base: &Result<(Vec<crate::tsparse::Tok>, Vec<String>), String>, var: &Result<(Vec<crate::tsparse::Tok>, Vec<String>), String>) -> Option<(&'static str, String)> {
+    match (base, var) {
+        (Ok(_), Err(e)) => Some(("ts-err", format!("TypeScript backend: compiles in the base layout, {e} after re-layout"))),
+        (Err(e), Ok(_)) => Some(("ts-ok", format!("TypeScript backend: {e} in the base layout, compiles after re-layout"))),
+        (Err(_), Err(_)) => None,
+        (Ok((bt, bw)), Ok((vt, vw))) => {
+            if bt != vt {
+                let at = bt.iter().zip(vt.iter()).position(|(a, b)| a != b).unwrap_or(bt.len().min(vt.len()));
+                let show = |t: &[crate::tsparse::Tok]| format!("{:?}", &t[at.saturating_sub(3).min(t.len())..(at + 6).min(t.len())]);
+                return Some(("ts-bindings", format!("TypeScript bindings differ (comments of the output removed) at token {at}:\n  base   : {}\n  variant: {}", show(bt), show(vt))));
+            }
+            if bw != vw {
+                return Some(("ts-warnings", format!("TypeScript backend: warnings differ: {bw:?} vs {vw:?}")));
             }
             None
         }
@@ -484,7 +592,12 @@ pub fn run(tier: Tier, seed: u64, replay: Option<String>) -> i32 {
         if let Some((outcome, detail)) = cmp {
             let id = site_id(left, right, form_class);
             ctx.class(&format!("fails:{outcome}"));
-            let fid = known_sites.get(&id).copied();
+            let mut fid = known_sites.get(&id).copied();
+            // F-comment-marker: only the identifier annotation differs and the comment is one of
+            // the generator's own marker texts
+            if outcome == "identifier-only" && MARKER_BODIES.iter().any(|b| var_text.contains(b)) && !MARKER_BODIES.iter().any(|b| base_text.contains(b)) {
+                fid = known_sites.get("F-comment-marker").copied().or(fid);
+            }
             if std::env::var("C13_SITES").is_ok() && !seen.contains(&id) {
                 println!("SITE\t{id}\t{outcome}\t{}", var_text.lines().find(|l| !base_text.contains(*l)).unwrap_or("").chars().take(160).collect::<String>());
             }
@@ -501,13 +614,13 @@ pub fn run(tier: Tier, seed: u64, replay: Option<String>) -> i32 {
     if let Some(path) = replay {
         let v: Value = serde_json::from_str(&std::fs::read_to_string(&path).expect("replay")).expect("json");
         let r: Replay = serde_json::from_value(v["case"].clone()).expect("case");
-        let cmp = compare(&observe(&r.base), &observe(&r.variant));
+        let cmp = if r.form_class == "ts-comment" { compare_ts(&observe_ts(&r.base), &observe_ts(&r.variant)) } else { compare(&observe(&r.base), &observe(&r.variant)) };
         judge(&mut ctx, &r.base, &r.variant, &r.left, &r.right, &r.form_class, true, cmp, &mut seen);
         return ctx.finish();
     }
     for (_p, v) in crate::ev::replay_files("C13") {
         if let Ok(r) = serde_json::from_value::<Replay>(v["case"].clone()) {
-            let cmp = compare(&observe(&r.base), &observe(&r.variant));
+            let cmp = if r.form_class == "ts-comment" { compare_ts(&observe_ts(&r.base), &observe_ts(&r.variant)) } else { compare(&observe(&r.base), &observe(&r.variant)) };
             judge(&mut ctx, &r.base, &r.variant, &r.left, &r.right, &r.form_class, true, cmp, &mut seen);
         }
     }
@@ -521,10 +634,12 @@ pub fn run(tier: Tier, seed: u64, replay: Option<String>) -> i32 {
     let rows: Vec<Vec<Row>> = streams
         .par_iter()
         .map(|s| {
-            let ms = gen_set(s, &gen_cfg());
+            let mut ms = gen_set(s, &gen_cfg());
+            add_library(&mut ms, &mut crate::src::Src::new(&s[s.len() / 3..]));
             let toks = tokens(&ms);
             let (base_text, _) = render_default(&toks, false);
             let base = observe(&base_text);
+            let base_ts = observe_ts(&base_text);
             let mut out: Vec<Row> = vec![];
             for i in 1..toks.len() {
                 let (l, r) = (&toks[i - 1].text, &toks[i].text);
@@ -545,6 +660,12 @@ pub fn run(tier: Tier, seed: u64, replay: Option<String>) -> i32 {
                     }
                     let (vt, _) = render_with(&toks, &|k| if k == i { sep.clone() } else { default_sep(&toks, k, false) }, "\n");
                     let cmp = compare(&base, &observe(&vt));
+                    // the TypeScript backend copies comments into its output as well: the same
+                    // re-layout through it when the form is a comment
+                    if cmp.is_none() && form.class() == "comment" {
+                        let tcmp = compare_ts(&base_ts, &observe_ts(&vt));
+                        out.push((base_text.clone(), vt.clone(), kind_of(l), kind_of(r), "ts-comment", inside, tcmp));
+                    }
                     out.push((base_text.clone(), vt, kind_of(l), kind_of(r), form.class(), inside, cmp));
                 }
             }
@@ -568,7 +689,10 @@ pub fn run(tier: Tier, seed: u64, replay: Option<String>) -> i32 {
                     if known_ids.contains(&site_id(&kind_of(l), &kind_of(r), form.class())) {
                         continue;
                     }
+                    // (the marker texts are left to the single-boundary variants: finding
+                    // F-comment-marker would colour the whole variant)
                     let body = body_for(form, src.pick(24));
+                    let body = if MARKER_BODIES.contains(&body) { "c" } else { body };
                     seps[i] = Some(form.text(body));
                     changed += 1;
                 }
